@@ -1196,6 +1196,12 @@ package plenccodec
 //@   # the name recorded for the descriptor: the name part of the json tag when it has one, otherwise the Go field name
 //@   loop 1 step[C14] count == head_count + 1 && called_Cut ==> (len(call_Cut_r0) != 0 ==> c.fields[head_count].name == call_Cut_r0) && (len(call_Cut_r0) == 0 ==> c.fields[head_count].name == call_Type_Field_r0.Name)
 //@   loop 1 step[C14] count == head_count + 1 ==> called_Cut && c.fields[head_count].index == call_Atoi_r0 && c.fields[head_count].offset == call_Type_Field_r0.Offset
+//@   # fields are recorded in declaration order, which is the order the encoders walk: an iteration records its field
+//@   # behind the ones recorded so far and leaves those alone, and what the codec holds in the end is what the loop
+//@   # recorded, entry for entry in that order (nothing re-orders the list afterwards)
+//@   loop 1 step[C02,C14] forall k int :: 0 <= k && k < head_count ==> c.fields[k].offset == athead(c.fields[k].offset) && c.fields[k].index == athead(c.fields[k].index)
+//@   ensures[C02,C14] r1 == nil ==> loopdone_1 && len(c.fields) == exit_count
+//@   ensures[C02,C14] r1 == nil && loopdone_1 ==> (forall k int :: 0 <= k && k < len(c.fields) ==> c.fields[k].offset == atexit(1, c.fields[k].offset) && c.fields[k].index == atexit(1, c.fields[k].index))
 //@   loop 2 invariant[C08] len(c.fieldsByIndex) == maxIndex + 1 && rangelen == len(c.fields)
 //@   loop 2 invariant[C08] forall k int :: 0 <= k && k < len(c.fields) ==> 0 <= c.fields[k].index && c.fields[k].index <= maxIndex
 //@   loop 2 decreases rangelen - rangeindex
